@@ -442,23 +442,25 @@ impl Context {
     fn walk_into_scopes(&self, start: ScopeIndex, names: &[Located<String>]) -> Option<ScopeIndex> {
         let mut current = start;
         for scope in names {
-            if let Some(symbols) = self.scopes[current].symbols.get(&scope.node) {
+            // Each name is looked up in the scope reached by the previous name
+            let step_start = current;
+            if let Some(symbols) = self.scopes[step_start].symbols.get(&scope.node) {
                 for symbol in symbols {
                     // Currently only support namespaces and enums - not struct name scopes
                     match symbol {
                         ScopeSymbol::Namespace(index) => {
-                            assert_eq!(current, start);
+                            assert_eq!(current, step_start);
                             current = *index
                         }
                         ScopeSymbol::EnumScope(index) => {
-                            assert_eq!(current, start);
+                            assert_eq!(current, step_start);
                             current = *index
                         }
                         _ => {}
                     }
                 }
             }
-            if current == start {
+            if current == step_start {
                 return None;
             }
         }
